@@ -86,6 +86,11 @@ CHECKS = {
                      "the same interleaving on a 3-value alphabet for add/compare-only indicators and MAD, and for every f64 the clone's serialized state equals the original's and is untouched by "
                      "stepping the original. Threads are outside (Kani has no concurrency).",
                 technique="symbolic execution of rustc MIR into z3 (interleaved instances vs replays) + Kani/CBMC harnesses; native replay", design='4/C05'),
+    'C18': dict(text="(R) symbolic execution of new + 3n+3 x next + reset + next for all 22 indicators, n<=3 (6): no allocating call is reached inside next()/reset() and every owned heap array keeps "
+                     "its identity and length (so, step by step, the owned heap is the constructor's allocation: 8*period bytes per window); (K) the real bincode::serialized_size compiled into the "
+                     "harness stays <= 256+64*sum(periods) after each of n+3 steps of every f64 bit pattern and after reset; an allocating call that IS reachable inside next() is confirmed or refuted by a "
+                     "native long-stream probe (35 stream shapes x 1200 inputs, bincode size against the bound), which also runs as a sanity pass on the unchanged tree.",
+                technique="symbolic execution of rustc MIR (reachability of allocation sites, buffer identity) + Kani/CBMC size harnesses; native long-stream confirmation", design='4/C18'),
 }
 NA = {
     'C19': "decided by rustc's type checker once and for all; there is no input, state or schedule for an SMT/SAT solver to quantify over",
